@@ -55,7 +55,7 @@ MaxMag(M) == MaxSet({MagOf(M[i][j]) : i \in DOMAIN M, j \in DOMAIN M})
 GeomWF(e) ==
   LET d == GDim(e.kind) np == Len(e.X) IN
   /\ e.kind \in {"line", "tri", "quad", "tet", "hex", "wedge"} /\ e.map \in {"affine", "iso"}
-  /\ e.scale \in {1, 2, 4, 8, 16, 32} /\ e.D = 8 /\ e.straight \in {0, 1}
+  /\ e.scale \in {1, 2, 4, 8, 16, 32, 64, 128, 256} /\ e.D = 8 /\ e.straight \in {0, 1}
   /\ \A v \in DOMAIN e.p : Len(e.p[v]) = d
   /\ \A k \in DOMAIN e.cells : Len(e.cells[k]) = NVerts(e.kind) /\ \A i \in DOMAIN e.cells[k] : e.cells[k][i] \in DOMAIN e.p
   /\ \A f \in DOMAIN e.facets : \A i \in DOMAIN e.facets[f] : e.facets[f][i] \in DOMAIN e.p
@@ -188,7 +188,7 @@ GeomClauses(e) ==
 \* Div event: boundary integral of x.n equals d times the volume -- globally over the boundary facets and cell by
 \* cell over all facets (sign +1 when the cell is the facet's first neighbour, whose normal is used, else -1)
 DivWF(e) ==
-  /\ e.kind \in {"line", "tri", "quad", "tet", "hex"} /\ e.straight \in {0, 1} /\ e.scale \in {1, 2, 4, 8, 16, 32}
+  /\ e.kind \in {"line", "tri", "quad", "tet", "hex"} /\ e.straight \in {0, 1} /\ e.scale \in {1, 2, 4, 8, 16, 32, 64, 128, 256}
   /\ Len(e.xn) = Len(e.facets) /\ Len(e.vol) = Len(e.cells) /\ AllFx(e.xn) /\ AllFx(e.vol)
   /\ Len(e.t2f) = Len(e.cells) /\ Len(e.f2t) = Len(e.facets)
   /\ \A k \in DOMAIN e.t2f : \A s \in DOMAIN e.t2f[k] : e.t2f[k][s] \in DOMAIN e.facets
@@ -225,9 +225,24 @@ PairHolds(e) ==
   /\ e.shapeA = e.shapeB /\ Len(e.A) = Len(e.B)
   /\ \A i \in DOMAIN e.A : Near(e.A[i], e.B[i])
 
+\* ---------------------------------------------------------------------------
+\* RefDom event: the reference tables of the library (refdom.py) -- for every local facet slot the tabulated normal
+\* is orthogonal to that facet of the reference cell and every other reference vertex lies strictly behind it
+RefDomWF(e) ==
+  /\ e.kind \in {"line", "tri", "quad", "tet", "hex", "wedge"}
+  /\ Len(e.refv) = NVerts(e.kind) /\ \A v \in DOMAIN e.refv : Len(e.refv[v]) = GDim(e.kind)
+  /\ Len(e.normals) = Len(e.lf) /\ \A s \in DOMAIN e.normals : Len(e.normals[s]) = GDim(e.kind)
+  /\ \A s \in DOMAIN e.lf : \A i \in DOMAIN e.lf[s] : e.lf[s][i] \in DOMAIN e.refv
+RefNormalsOutward(e) ==
+  \A s \in DOMAIN e.lf :
+     LET L == {e.lf[s][i] : i \in DOMAIN e.lf[s]} N == e.normals[s] IN
+     /\ \A a, b \in L : VDot(N, VSub(e.refv[a], e.refv[b])) = 0
+     /\ \A v \in (DOMAIN e.refv) \ L : \A a \in L : VDot(N, VSub(e.refv[v], e.refv[a])) < 0
+
 C10WellFormed(e) ==
-  /\ e.a \in {"Geom", "Div", "Pair"}
+  /\ e.a \in {"Geom", "Div", "Pair", "RefDom"}
   /\ CASE e.a = "Geom" -> e.err = "" => GeomWF(e)
+       [] e.a = "RefDom" -> e.err = "" => RefDomWF(e)
        [] e.a = "Div"  -> e.err = "" => DivWF(e)
        [] e.a = "Pair" -> PairWF(e)
 
@@ -237,6 +252,7 @@ C10Clauses(e) ==
   ELSE IF e.err # "" THEN [WellFormed |-> TRUE, NoUnexpectedError |-> FALSE]
   ELSE [WellFormed |-> TRUE, NoUnexpectedError |-> TRUE] @@
        (IF e.a = "Geom" THEN GeomClauses(e)
+        ELSE IF e.a = "RefDom" THEN [RefNormalsOutward |-> RefNormalsOutward(e)]
         ELSE [DivergenceTheorem |-> DivergenceTheorem(e), CellwiseDivergence |-> CellwiseDivergence(e),
               VolumeMatches |-> VolumeMatches(e)])
 ==============================================================================
